@@ -130,6 +130,12 @@ package builder
 //@   ensures {C06,C07} is(a, gmodel.SimpleField) ==> as(a, gmodel.SimpleField).LHS == bmodel.assignExpr(lhs) && as(a, gmodel.SimpleField).Error == converter.retError
 //@   check {C06,C02,C01} is(a, gmodel.SimpleField) ==> converterNode != nil && as(a, gmodel.SimpleField).RHS == bmodel.assignExpr(converterNode) && assignable(bmodel.exprType(converterNode), bmodel.exprType(lhs))
 //@
+// C02 "terminates without panicking with non-nil operands": selecting a member through a pointer-typed member
+// dereferences a pointer that may be nil; the default matching guards such steps (NullCheckExpr), a :map path
+// must not contain one unguarded.  Nothing ensures it: known finding F19.
+//@ spec ptrHop(n bmodel.Node) bool =
+//@     bmodel.parentOf(n) != nil && ((isPtrT(bmodel.exprType(bmodel.parentOf(n))) && bmodel.parentOf(bmodel.parentOf(n)) != nil) || ptrHop(bmodel.parentOf(n)))
+//@
 //@ func (*assignmentBuilder).createWithMapper$1() (r)
 //@   inline
 //@   loop 1 invariant bmodel.wfNode(root) && plainPath(root)
@@ -142,6 +148,7 @@ package builder
 //@   ensures {C06,C07,C05} err == nil && (is(a, gmodel.SimpleField) || isNoMatch(a, bmodel.assignExpr(lhs)))
 //@   ensures {C06} is(a, gmodel.SimpleField) ==> as(a, gmodel.SimpleField).LHS == bmodel.assignExpr(lhs)
 //@   check {C06,C07,C02,C01} is(a, gmodel.SimpleField) ==> mappedNode != nil && as(a, gmodel.SimpleField).RHS == bmodel.assignExpr(mappedNode) && as(a, gmodel.SimpleField).Error == bmodel.returnsError(mappedNode) && assignable(bmodel.exprType(mappedNode), bmodel.exprType(lhs))
+//@   check {C02} is(a, gmodel.SimpleField) ==> !ptrHop(mappedNode)
 //@
 //@ func (*assignmentBuilder).createWithTemplatedMapper$1() (r)
 //@   inline
